@@ -89,7 +89,12 @@ def gen(seed, tier="quick"):
         scn["init"] = init
         pool = [["allow"], ["allow"], ["fail", "TRANSIENT"], ["fail", "SERVER_ERROR"], ["success"], ["cancel"], ["state"], ["fail", "PERMANENT"]]
         scn["suffix"] = [["state"], ["allow"], ["state"], ["fail", "TRANSIENT"], ["state"]]
-        if r.random() < 0.2:
+        if r.random() < 0.15 and kind in ("closed", "closed_near"):
+            # time moves while the threads race, far enough for a trip -> recovery -> probe cycle to happen inside
+            # the race; held to "no deadlock, no exception" only (see the budget note on clock samples)
+            scn["moving_clock"] = True
+            pool = pool + [["adv", 8 * U], ["adv", 8 * U], ["allow"], ["success"]]
+        elif r.random() < 0.2:
             # the injected clock is itself thread-safe (takes its own lock), and some caller reads breaker.state while
             # holding that lock: legal, and harmless as long as the breaker never calls the clock with its lock held
             scn["locked_clock"] = True
@@ -119,6 +124,15 @@ def gen(seed, tier="quick"):
             scn["suffix"] = ([["adv", 4 * U]] + [["consume", 1]] * mx + [["remaining"], ["adv", 4 * U]] + [["consume", 1]] * mx)
     nthreads = r.choice([2, 2, 3])
     scn["threads"] = [[list(r.choice(pool)) for _ in range(r.choice([1, 1, 2, 3]))] for _ in range(nthreads)]
+    if comp == "breaker" and scn.get("moving_clock"):
+        # one thread reports a (late) failure while another drives a whole trip -> recovery -> probe -> outcome cycle
+        late = [["fail", "TRANSIENT"]]
+        cycle = [["fail", "TRANSIENT"], ["adv", 8 * U], ["allow"], r.choice([["success"], ["fail", "TRANSIENT"]])]
+        scn["threads"] = [late, cycle] + ([[list(r.choice(pool))]] if nthreads == 3 else [])
+        if r.random() < 0.7:
+            scn["cfg"]["F"] = 1
+            scn["init"] = []
+            scn["init_kind"] = "closed"
     scn["strategy"] = r.choice(["random", "random", "pct", "rtc"])
     scn["opcode"] = (tier == "thorough" and r.random() < 0.35)
     return scn
@@ -190,6 +204,9 @@ AUX = {}   # id(instance) -> {"clock": SimClock, "lock": SimLock}  (side table: 
 
 
 def apply_breaker_real(b, name, arg):
+    if name == "adv":
+        AUX[id(b)]["clock"].advance(arg)
+        return None
     if name == "state_locked":
         with AUX[id(b)]["lock"]:
             return b.state.value
@@ -333,7 +350,9 @@ def execute(scn):
         def make_instance():
             inst, _ck = build()          # rebinding the clock seam is fine: the racing phase is over
             return inst
-        if scn.get("moving_clock"):
+        if scn.get("moving_clock") and comp == "breaker":
+            ok = True        # deadlocks / exceptions were judged above; results are not compared when time moves
+        elif scn.get("moving_clock"):
             # Time moved during the race.  Each consume() stamps its grant with a clock sample taken somewhere between
             # its invocation and its return, so linearizability against a replay (which samples at one point) is not
             # demanded; what must hold for every interleaving is the window bound on those stamps: if grants worth
